@@ -129,6 +129,55 @@ pub enum UnitOnly {
 #[derive(Clone, Copy, Debug, PartialEq, Eq, PartialOrd, Ord, Serialize, Deserialize)]
 pub struct IntKey(pub u16);
 
+/// Serialized through `Serializer::collect_str`, read back from a string.
+#[derive(Clone, Copy, Debug, PartialEq, Eq, PartialOrd, Ord)]
+pub struct Shown(pub u32);
+impl Serialize for Shown {
+	fn serialize<S: serde::Serializer>(&self, s: S) -> Result<S::Ok, S::Error> {
+		s.collect_str(&format_args!("#{}", self.0))
+	}
+}
+impl<'de> Deserialize<'de> for Shown {
+	fn deserialize<D: serde::Deserializer<'de>>(d: D) -> Result<Self, D::Error> {
+		let s = String::deserialize(d)?;
+		s.strip_prefix('#').and_then(|x| x.parse().ok()).map(Shown).ok_or_else(|| serde::de::Error::custom("not a Shown"))
+	}
+}
+
+/// Serialized through `serialize_bytes`, read back through `deserialize_byte_buf`.
+#[derive(Clone, Debug, PartialEq)]
+pub struct Bytes(pub Vec<u8>);
+impl Serialize for Bytes {
+	fn serialize<S: serde::Serializer>(&self, s: S) -> Result<S::Ok, S::Error> {
+		s.serialize_bytes(&self.0)
+	}
+}
+impl<'de> Deserialize<'de> for Bytes {
+	fn deserialize<D: serde::Deserializer<'de>>(d: D) -> Result<Self, D::Error> {
+		struct V;
+		impl<'de> serde::de::Visitor<'de> for V {
+			type Value = Bytes;
+			fn expecting(&self, f: &mut std::fmt::Formatter) -> std::fmt::Result {
+				f.write_str("bytes")
+			}
+			fn visit_seq<A: serde::de::SeqAccess<'de>>(self, mut a: A) -> Result<Bytes, A::Error> {
+				let mut v = Vec::new();
+				while let Some(b) = a.next_element::<u8>()? {
+					v.push(b)
+				}
+				Ok(Bytes(v))
+			}
+			fn visit_bytes<E: serde::de::Error>(self, b: &[u8]) -> Result<Bytes, E> {
+				Ok(Bytes(b.to_vec()))
+			}
+			fn visit_byte_buf<E: serde::de::Error>(self, b: Vec<u8>) -> Result<Bytes, E> {
+				Ok(Bytes(b))
+			}
+		}
+		d.deserialize_byte_buf(V)
+	}
+}
+
 #[derive(Clone, Debug, PartialEq, Serialize, Deserialize)]
 pub enum Datum {
 	Bool(bool),
@@ -182,6 +231,9 @@ pub enum Datum {
 	Tuple1Struct(Tuple1Struct),
 	Tup1((Vec<u8>,)),
 	EnumKeyed(BTreeMap<String, E>),
+	Shown(Shown),
+	ShownKeys(BTreeMap<Shown, i8>),
+	Bytes(Bytes),
 }
 
 macro_rules! gen_int {
@@ -270,7 +322,7 @@ fn gen_named(rng: &mut Rng, depth: usize) -> Named {
 }
 
 pub fn gen_datum(rng: &mut Rng, depth: usize) -> Datum {
-	let n = if depth >= 3 { 20 } else { 51 };
+	let n = if depth >= 3 { 20 } else { 54 };
 	let short = |rng: &mut Rng| -> usize { [0usize, 1, 1, 1, 2, 3][rng.below(6)] };
 	let sub = |rng: &mut Rng| gen_datum(rng, depth + 1);
 	let len = |rng: &mut Rng| [0, 1, 2, 3, 6][rng.below(5)];
@@ -343,7 +395,10 @@ pub fn gen_datum(rng: &mut Rng, depth: usize) -> Datum {
 		47 => Datum::NtUnit(NewtypeUnit(())),
 		48 => Datum::Tuple1Struct(Tuple1Struct((0..short(rng)).map(|_| gen_int!(rng, i8)).collect(), ())),
 		49 => Datum::Tup1(((0..short(rng)).map(|_| gen_int!(rng, u8)).collect(),)),
-		_ => Datum::EnumKeyed((0..short(rng)).map(|_| (gen_str(rng), gen_e(rng, depth + 1))).collect()),
+		50 => Datum::EnumKeyed((0..short(rng)).map(|_| (gen_str(rng), gen_e(rng, depth + 1))).collect()),
+		51 => Datum::Shown(Shown(gen_int!(rng, u32))),
+		52 => Datum::ShownKeys((0..short(rng)).map(|_| (Shown(gen_int!(rng, u32)), gen_int!(rng, i8))).collect()),
+		_ => Datum::Bytes(Bytes((0..len(rng)).map(|_| gen_int!(rng, u8)).collect())),
 	}
 }
 
@@ -477,6 +532,22 @@ fn c16_one(rep: &mut Report, x: &Datum) {
 			}
 		}
 	}
+	// (5) a struct may also be given as the array of its fields (as in serde_json)
+	if let (Datum::Named(n), Ok(Value::Object(outer))) = (x, &js) {
+		if let Some(Value::Object(fields)) = outer.iter().next().map(|e| e.value.clone()) {
+			let arr = Value::Array(fields.into_iter().map(|e| e.value).collect());
+			let sj_arr = guard(|| arr.clone().into_serde_json());
+			if let Ok(sj_arr) = sj_arr {
+				if serde_json::from_value::<Named>(sj_arr).ok().as_ref() == Some(&**n) {
+					rep.count("structs_read_from_field_arrays", 1);
+					match guard(|| json_syntax::from_value::<Named>(arr.clone())) {
+						Ok(Ok(back)) if back == **n => (),
+						other => rep.violation("C16:struct-from-array", format!("from_value::<Named>({}) = {:?}, expected {:?}", show(arr.to_string().as_bytes()), other, n), case()),
+					}
+				}
+			}
+		}
+	}
 	// (4) serde_json's text parsed by json-syntax deserializes to the datum
 	if sj_text_ok {
 		if let Some(t) = &sj_text {
@@ -550,7 +621,7 @@ pub fn run_c16(cfg: &Config) -> i32 {
 		cfg,
 		EvidenceMeta {
 			id: "C16",
-			rule: "a case is an instance of the derive-annotated type family (51 top-level shapes: all integer widths at their bounds, f32/f64 incl. non-finite and subnormal, char, strings that look like numbers, unit, unit/newtype/tuple/named structs, an enum with unit/renamed/newtype/tuple/struct/empty-struct variants, options, tuples, arrays, sequences, newtype structs over sequences / one-element tuples and arrays / options / maps / enums / strings / unit, maps keyed by String, i8..i64, u8..u64, char, unit-variant enum, integer newtype; recursive nesting) generated from the seed; checked: (1) from_value(to_value(x)) == x whenever serde_json's own Value round trip returns x, (2) to_value(x) has the same JSON shape as serde_json::to_value(x), (3) from_value(from_serde_json(serde_json::to_value(x))) == x, (4) from_value(parse(serde_json::to_string(x))) == x, under the same proviso; plus raw f64/f32 bit patterns through to_value/from_value; distinct by hash of the Debug rendering",
+			rule: "a case is an instance of the derive-annotated type family (54 top-level shapes: all integer widths at their bounds, f32/f64 incl. non-finite and subnormal, char, strings that look like numbers, unit, unit/newtype/tuple/named structs, an enum with unit/renamed/newtype/tuple/struct/empty-struct variants, options, tuples, arrays, sequences, newtype structs over sequences / one-element tuples and arrays / options / maps / enums / strings / unit, maps keyed by String, i8..i64, u8..u64, char, unit-variant enum, integer newtype; recursive nesting) generated from the seed; checked: (1) from_value(to_value(x)) == x whenever serde_json's own Value round trip returns x, (2) to_value(x) has the same JSON shape as serde_json::to_value(x), (3) from_value(from_serde_json(serde_json::to_value(x))) == x, (4) from_value(parse(serde_json::to_string(x))) == x, under the same proviso; plus raw f64/f32 bit patterns through to_value/from_value; distinct by hash of the Debug rendering",
 			exhaustive: false,
 			assumptions: vec![
 				"serde_json 1.0.x with default features is the stated reference; data serde_json itself cannot round-trip (non-finite floats, Some(None), ...) are excluded from the round-trip relations".into(),
